@@ -8,16 +8,16 @@ ID = "C04"
 TAG = cc.TAG
 EXTRACT = cc.EXTRACT
 DRIVER = cc.DRIVER
-COQ_FILES = ["FA/Proofs/CaptureProofs.v", "FA/Proofs/CaptureSem.v", "FA/Properties/C04.v"]
+COQ_FILES = ["FA/Proofs/CaptureProofs.v", "FA/Proofs/CaptureSem.v", "FA/Proofs/CaptureGen.v", "FA/Properties/C04.v"]
 
 LEVEL = ("Coq theorems over the executable model of _rewrite_captured_vars / check_ast (Model/Capture.v, mirroring the code "
-         "with fixes F08, F19, FC1, FC3, FC5, FC6 applied): capture_respects_scope (the ignore stack acts exactly as deletion of the bound "
-         "names from the snapshot, for every expression tree incl. nested lambdas and comprehension targets; a tree whose "
-         "names are all bound is returned unchanged), capture_gate (check_ast accepts exactly the trees whose constants "
-         "have a legal kind - list regenerated from g_legal_capture_types - and otherwise raises ValueError; the pipeline "
-         "never returns a tree with an illegal constant), capture_freezes (on the first-order fragment of Base/Eval.v the "
-         "rewritten body evaluated in any later environment equals the original evaluated with the snapshot values in "
-         "front of that environment).  Model tied to the code by exact comparison on generated Python programs.")
+         "incl. fixes F08, F19, FC1, FC3, FC5-FC8): capture_freezes_partial - for EVERY expression tree and every backend, "
+         "eval later (rewrite ce e) = eval (vals ce ++ later) e (both directions) whenever the names occurring in e are bound "
+         "in the snapshot to int/bool/str/None literals or not at all and no attribute is folded; capture_then_resolve_partial "
+         "(freeze + resolve of called lambdas, one direction); capture_respects_scope (snapshot values of names on the ignore "
+         "stack are irrelevant, all trees; stack = erasure); capture_gate (check_ast accepts exactly legal constant kinds - "
+         "generated table - else ValueError; the pipeline never returns an illegal constant).  Model tied to the code by exact "
+         "comparison on generated Python programs incl. the same callable passed twice around a rebinding.")
 TRUSTED = ["Coq 8.16.1 kernel (coqc); no axioms (Print Assumptions: closed under the global context)",
            "harness/sync_tables.py + harness/tables/util.py (legal_const_kinds read from util_ast.g_legal_capture_types)",
            "extraction: ExtrOcamlBasic + ExtrOcamlNativeString; ocaml/driver_capture.ml + ocaml/sx.ml codecs",
@@ -25,7 +25,7 @@ TRUSTED = ["Coq 8.16.1 kernel (coqc); no axioms (Print Assumptions: closed under
            "inputs of the model, validated by correspondence only: what inspect.getclosurevars / f.__globals__ / hasattr+getattr "
            "report at the call (the snapshot cenv); source recovery of the lambda text (C03)"]
 ASSUME = ["the snapshot (closure cells, module globals, attribute lookups) is an input of the model",
-          "capture_freezes: first-order fragment of the reference semantics (no attribute folding, no helper inlining, literals only)",
+          "capture_freezes: names holding classes/modules/enums (attribute folding) and captured helpers are outside the theorem (correspondence + oracle only)",
           "lambdas with non-positional parameter kinds are outside the model (oracle only)"]
 RULE = ("generated Python programs: values of 22 kinds x scope (module global, enclosing function at depth 1-3, class constant "
         "nested <=2, module attribute, enum with/without namespace) x use patterns (arithmetic, nested lambdas, comprehensions, "
